@@ -386,6 +386,19 @@ const W = 15 * time.Second // watchdog for events that normally take microsecond
 
 // Quiesce waits until the server holds no pending request on the connection.
 func (c *CConn) Quiesce(d time.Duration) bool {
+	// the counters are read under the connection's own lock: a server that deadlocked holding it must not take the
+	// monitor with it
+	done := make(chan bool, 1)
+	go func() { done <- c.quiesce(d) }()
+	select {
+	case r := <-done:
+		return r
+	case <-time.After(d + time.Second):
+		return false
+	}
+}
+
+func (c *CConn) quiesce(d time.Duration) bool {
 	deadline := time.Now().Add(d)
 	for c.GC != nil {
 		// the server's reader has consumed everything sent and is back in Read (a request is linked into the
